@@ -841,16 +841,26 @@ def main(argv):
               "running": case["running"], "enabled": case["enabled"], "cmds": case["cmds"],
               "faults": case.get("faults") or [[] for _ in case["cmds"]],
               "delays": case.get("delays") or [[] for _ in case["cmds"]], "kills": case.get("kills")}
+        if case.get("kill_before"):
+            # symbolic kill point: SIGKILL on entering the first file-level syscall of command 0 whose
+            # strace line contains this text (the occurrence number is found by a traced dry run)
+            t = runner_input(dict(sc, cmds=sc["cmds"][:1], faults=[[]], delays=[[]], kills=None), lay, binary)
+            t["trace"] = ["0"]
+            tr = run_impl(ctx, [t], workers=1)[0]["steps"][0]["trace"]
+            pt = [p for p in kill_points(tr) if case["kill_before"] in p[3]][0]
+            sc["kills"] = case["kills"] = {"0": [pt[1], pt[2]]}
+            print("killing command 0 on entering:", pt[3])
         ir = run_impl(ctx, [runner_input(sc, lay, binary)], workers=1)[0]
         for s in ir["steps"]:
             print(" ".join(s["args"]), "-> rc", s["rc"], "calls", [" ".join(c[0]) + " (exit %d)" % c[2] for c in s["calls"]],
                   "running", s["state"]["running"], "enabled", s["state"]["enabled"])
             for p in P_SYS:
                 print("    ", p, s["state"]["files"].get(p))
-        why = property_failures(sc, ir, {sha(d): d for _, d in files.values()})
-        if case.get("kills") and len(ir["steps"]) >= 3:
+        if case.get("kills") and len(ir["steps"]) >= 3:     # a killed backup: the refuse-or-reinstate predicate
             cw = crash_property(ir)
-            why = why + [cw] if cw else why
+            why = [cw] if cw else []
+        else:
+            why = property_failures(sc, ir, {sha(d): d for _, d in files.values()})
         print("property failures:", why or "none")
         return 1 if why else 0
     finally:
